@@ -111,6 +111,7 @@ type Program struct {
 	NoOpts   bool // do not print an options block even if empty (default: print only when len(Opts)>0)
 	MetaLast bool // print the MetaData blocks after the packets (declaration order is free in the grammar)
 	OptsLast bool // print the options block last
+	OneLine  bool // Text() renders the whole program on one source line
 	Meta     []*MetaBlock
 	Packets  []*Packet
 	// Order in which top-level blocks are printed: default options, metadata, packets.
@@ -593,7 +594,12 @@ func max0(n int) int {
 }
 
 // Text is Render(Tokens(), Pretty).
-func (p *Program) Text() string { return Render(p.Tokens(), Pretty) }
+func (p *Program) Text() string {
+	if p.OneLine {
+		return Render(p.Tokens(), OneLine)
+	}
+	return Render(p.Tokens(), Pretty)
+}
 
 // TokenLines returns, for the layout given by gaps, the (first,last) 1-based line of every token.
 func TokenLines(toks, gaps []string) [][2]int {
